@@ -1,18 +1,90 @@
-"""C19 - connections and the SQLite transaction lock are always released (CrossHair, symbolic fault positions)."""
+"""C19 - connections and the SQLite transaction lock are always released.
+
+CrossHair over whole real sessions on the recording fake DB-API (engine/fakedb.py); the positions of the failing
+DB-API calls, the body outcome, the mid-session action and the exception class are symbolic.  See checks/h_c19.py
+for the scenario, the reference statement R1-R6 and every assumption.
+"""
 import os
 from engine.core import Report
 from engine import ch
 
+KNOWN_REGION_NOTE = ('SessionCache.prepare_connection_for_query_execution returns the connection it read BEFORE its '
+                     'auto-flush; when the flush reconnects (PostgreSQL/MySQL/Oracle "connection lost" errors) the '
+                     'caller goes on with the closed connection. The main pg_*/my_* harnesses exclude exactly the '
+                     '"used after close" assertion for such a stale connection and the reconnect_stale_* harnesses '
+                     'assert it strictly.')
+
 
 def classify(spec, cex):
+    """Stable keys for the genuine defects; decided from the reasons of an untraced re-run of the harness."""
+    from checks import h_c19 as h
+    h.setup()
+    try:
+        r, why, journal = h.explain(spec['fn'], **cex)
+    except Exception:
+        return None
+    if r: return None
+    text = ' ; '.join(why)
+    if "has no attribute 'pid'" in text:
+        return 'sqlitepool-partial-connect-no-pid'
+    if spec['fn'].startswith('reconnect_stale') and 'used after close' in text and h.STALE:
+        return 'stale-connection-after-reconnect-in-autoflush'
     return None
 
 
 def run(tier, seed, only=None):
-    rep = Report('C19', 'fault_enumeration', 'x')
+    from pony.orm import core, dbapiprovider as dp
+    from pony.orm.dbproviders import sqlite as ps
+    from engine import env
+    env.install_driver_stubs()
+    from pony.orm.dbproviders import postgres as ppg, mysql as pmy
+    rep = Report('C19', 'fault_enumeration',
+                 'CrossHair explores whole real sessions (db_session / SessionCache / SQLiteProvider lock code / Pool, SQLitePool, '
+                 'PGPool) over a recording fake DB-API: the numbers of the DB-API calls that raise (two positions, three in the '
+                 'thorough tier), the exception class, whether the body raises and the mid-session action are symbolic. After '
+                 'every session: transaction lock free and balanced, no session state left, every connection pooled-and-clean '
+                 'or closed exactly once and never used afterwards, checkouts == returns; a following session in the same '
+                 'thread and one in another thread run to completion. Only "Confirmed over all paths" counts.')
+    S, P, D = core.SessionCache, ps.SQLiteProvider, dp.DBAPIProvider
+    rep.fn(core.DBSessionContextManager._commit_or_rollback, core.commit, core.rollback, core.Database._exec_sql,
+           core.Database.disconnect, S.connect, S.reconnect, S.prepare_connection_for_query_execution, S.commit, S.close,
+           S.flush_and_commit, P.acquire_lock, P.release_lock, P.set_transaction_mode, P.commit, P.rollback, P.drop, P.release,
+           D.commit, D.rollback, D.release, D.drop, dp.Pool.connect, dp.Pool.release, dp.Pool.drop, dp.Pool.disconnect,
+           ps.SQLitePool._connect, ps.SQLitePool.drop, ps.SQLitePool.disconnect, ppg.PGPool.release, ppg.PGPool._connect,
+           ppg.PGProvider.set_transaction_mode, pmy.MySQLProvider.set_transaction_mode, pmy.MySQLProvider.release)
     T = 150 if tier == 'quick' else 900
+    if tier == 'thorough':          # read by checks/h_c19.py in the worker processes
+        os.environ['C19_K3MAX'] = os.environ.get('C19_NMAX', '80')
+        os.environ['C19_ARMED2'] = '1'
+        os.environ['C19_FULL'] = '1'
     from checks import h_c19
     specs = [dict(module='checks.h_c19', fn=f, cond_timeout=T, path_timeout=T / 2, setup='setup') for f in h_c19.HARNESSES]
     if only: specs = [s for s in specs if only in s['fn']]
+    rep.bounds = {
+        'fault positions': 'k1 < k2 over every numbered DB-API call of the armed phase (quick); k1 < k2 < k3 and a second armed session (thorough); '
+                           'the harness fails if a path makes more than NMAX=%d armed calls' % h_c19.NMAX,
+        'fault points': 'connect, cursor, execute, executemany, commit, rollback, close (incl. the PRAGMAs inside SQLitePool._connect, DISCARD ALL inside PGPool.release)',
+        'session shapes': list(h_c19.SHAPES), 'body raises': [False, True],
+        'mid-session action': ['none', 'commit()', 'rollback()', 'flush()', 'db.commit()', 'db.rollback()', 'raw db.execute()', 'nested db_session'],
+        'exception class': ['driver OperationalError (reconnectable for pg/mysql)', 'driver IntegrityError', 'non-DB-API exception'] +
+                           (['quick tier: classes 1, 2 with a single fault position only'] if tier == 'quick' else []),
+        'pools': ['SQLitePool(file)', "SQLitePool(':memory:')", 'PGPool', 'Pool under MySQLProvider'],
+        'threads': 'one faulted thread; the follow-up session is run both in the same and in a fresh thread (no schedules)',
+    }
+    rep.assumptions = [
+        'fake DB-API (engine/fakedb.py): a faulted call has no effect; SQLite transaction model = explicit BEGIN..commit()/rollback(), BEGIN inside a '
+        'transaction raises OperationalError; PEP 249 implicit-transaction model for PostgreSQL/MySQL; calls on a closed connection raise "already closed"',
+        'provider.transaction_lock / pre_transaction_lock replaced by fakedb.ProbeLock (a real threading.Lock probed with acquire(False); raises instead of blocking)',
+        'pony.orm.core.time stubbed to a constant; pony.orm.dbproviders.sqlite.sqlite (the driver module global) points at the recording module',
+        'the pool classes are subclassed only to count connect/release/drop calls; SessionCache.prepare_connection_for_query_execution is wrapped by a '
+        'delegating observer (known region below)',
+        "':memory:' pool: rollback() refused twice in a row on the only connection is tolerated (nothing can be done without destroying the database)",
+        'SQLite harnesses start from the per-thread pool state DBAPIProvider.__init__ leaves behind (pid set); fresh_thread_file starts from a thread that never connected',
+        'the concrete bulk of each path runs with CrossHair\'s opcode tracer switched off (fakedb.untraced); tracing is on for every comparison of a symbolic '
+        'fault number with the call counter, which is the only place symbolic data is used',
+        'known region: ' + KNOWN_REGION_NOTE,
+    ]
+    rep.trusted = ['crosshair-tool 0.0.110', 'z3', 'engine/fakedb.py (driver model, ProbeLock)', 'reference R1-R6 in checks/h_c19.py',
+                   'threading.Lock hand-over between threads (thread schedules are outside the check)']
     ch.run_harnesses(rep, specs, classify)
     return rep
